@@ -2,6 +2,7 @@ import MpireModel.Model.Progress
 import MpireModel.Model.Worker
 import MpireModel.Proofs.Progress
 import MpireModel.Proofs.Worker
+import MpireModel.Proofs.Insights
 /-!
 # C18 — worker insights account for every task
 -/
@@ -36,5 +37,56 @@ theorem completed_counts_every_task (p : Mpire.Worker.Params) (env : Mpire.Worke
   Mpire.Proofs.Worker.results_sent_once p env items hok henv hj
 
 example : ratios [1, 1, 2] 1 = [1/5, 1/5, 2/5] := by decide +kernel
+
+/-! ## The bookkeeping over the life of a pool (Model/Insights.lean) -/
+open Mpire.Insights in
+/-- One entry per worker id, and the counters are exactly the numbers of tasks finished since the pool last started its workers —
+whatever happened before that start, and however many worker instances reached their lifespan or were replaced since. -/
+theorem counts_account_for_every_task (pre ops : List Op) (n : Nat) (h : ∀ o ∈ ops, o.isStart = false) :
+    (counts (run (pre ++ .start n :: ops))).length = n ∧
+    (counts (run (pre ++ .start n :: ops))).sum = nTasks n ops ∧
+    ∀ w, w < n → (counts (run (pre ++ .start n :: ops)))[w]? = some (tasksOf ops w).length :=
+  Mpire.Proofs.Insights.counts_account_for_every_task pre ops n h
+
+open Mpire.Insights in
+/-- the hypotheses are met by a history with an earlier start, a restart and a replaced instance; three tasks since the start -/
+example : counts (run ([.start 3, .task 0 4 "x"] ++ .start 2 :: [.task 0 5 "a", .restart 0, .task 0 1 "b", .replace 1, .task 1 2 "c", .task 7 9 "z"])) = [2, 1] ∧
+    nTasks 2 [.task 0 5 "a", .restart 0, .task 0 1 "b", .replace 1, .task 1 2 "c", .task 7 9 "z"] = 3 := by decide
+
+open Mpire.Insights in
+/-- A restart at the end of a lifespan changes no counter, leaves the successor with its predecessor's list of longest tasks, and
+publishes that list. -/
+theorem restart_is_invisible (s : St) (w : Nat) :
+    counts (step s (.restart w)) = counts s ∧
+    ((step s (.restart w))[w]?).map (·.own) = (s[w]?).map (·.own) ∧
+    ((step s (.restart w))[w]?).map (·.pub) = (s[w]?).map (·.own) :=
+  Mpire.Proofs.Insights.restart_is_invisible s w
+
+open Mpire.Insights in
+/-- Every history: five slots per worker id are published, and each holds a task that a worker really ran since the start, or is
+empty. -/
+theorem published_are_real_tasks (pre ops : List Op) (n : Nat) (h : ∀ o ∈ ops, o.isStart = false) :
+    (published (run (pre ++ .start n :: ops))).length = 5 * n ∧
+    ∀ e ∈ published (run (pre ++ .start n :: ops)), e = (0, "") ∨ ∃ w, w < n ∧ e ∈ tasksOf ops w :=
+  Mpire.Proofs.Insights.published_are_real_tasks pre ops n h
+
+open Mpire.Insights in
+/-- When no instance was replaced after dying (always so in a call that succeeds outside apply mode), what a worker id has
+published once it wrote back after its last task — as it does at the end of every call — are five entries, each a task it ran since
+the start (or still empty), and every task it ran that is not among them took no longer than any that is: the five longest. -/
+theorem published_holds_the_longest (pre ops : List Op) (n : Nat) (h : ∀ o ∈ ops, o.isStart = false)
+    (hk : ∀ o ∈ ops, o.isReplace = false) (w : Nat) (hw : w < n) :
+    ∃ x, (run (pre ++ .start n :: (ops ++ [.sync w])))[w]? = some x ∧ x.pub.length = 5 ∧
+      (∀ e ∈ x.pub, e ∈ tasksOf ops w ∨ e = (0, "")) ∧
+      (∀ t ∈ tasksOf ops w, t ∈ x.pub ∨ ∀ e ∈ x.pub, t.1 ≤ e.1) :=
+  Mpire.Proofs.Insights.published_holds_the_longest pre ops n h hk w hw
+
+open Mpire.Insights in
+/-- Without that hypothesis the statement fails: an instance that dies takes what it had not yet written back with it (the property
+asks for no more than "at most five, sorted"; this is recorded as a limit, not as a defect). -/
+theorem replaced_instance_can_lose_a_record :
+    ∃ ops : List Op, ∃ x, (run (.start 1 :: (ops ++ [.sync 0])))[0]? = some x ∧ (9, "long") ∈ tasksOf ops 0 ∧ (9, "long") ∉ x.pub ∧
+      ∃ e ∈ x.pub, e.1 < 9 :=
+  ⟨[.task 0 9 "long", .replace 0, .task 0 1 "short"], _, rfl, by decide, by decide, (1, "short"), by decide, by decide⟩
 
 end Mpire.C18
